@@ -18,6 +18,7 @@ type Asker struct {
 	// DoQLateFIN: the DoQ client keeps its side of a stream open until it has read the response (the query is complete
 	// with its length prefix; a listener that waits for the FIN before it answers never answers such a client)
 	DoQLateFIN bool
+	PortOffset int // added to the listener kind's standard port (a second listener of the same kind)
 	udp    *UDPClient
 	doh    map[string]*DoHClient
 	doq    *DoQClient
@@ -39,7 +40,7 @@ func (a *Asker) Close() {
 	}
 }
 
-func (a *Asker) addr(kind string) string { return fmt.Sprintf("%s:%d", a.IP, ListenerPorts[kind]) }
+func (a *Asker) addr(kind string) string { return fmt.Sprintf("%s:%d", a.IP, ListenerPorts[kind]+a.PortOffset) }
 
 // Result of one ask.
 type AskResult struct {
